@@ -116,7 +116,7 @@ func (l *Log) Render() []string {
 	for _, e := range l.Ex {
 		line := fmt.Sprintf("#%d s%d t=%v %s %s %s %s%s -> %d", e.Seq, e.Step, e.At, e.Link, e.Actor, e.Method, e.Host, c.text(e.Target), e.Status)
 		if e.Err != "" {
-			line += " err=" + c.text(e.Err)
+			line += " err=" + errClass(e.Err)
 		}
 		if e.Injected != "" {
 			line += " inj=" + e.Injected
@@ -144,6 +144,22 @@ func (l *Log) Hash() string {
 		h.Write([]byte{'\n'})
 	}
 	return hex.EncodeToString(h.Sum(nil))[:16]
+}
+
+// errClass reduces a transport error to its class: net/http words one and the same timeout
+// differently from run to run ("request canceled" vs "context deadline exceeded").
+func errClass(s string) string {
+	switch {
+	case strings.Contains(s, "deadline exceeded") || strings.Contains(s, "request canceled") || strings.Contains(s, "Client.Timeout") || strings.Contains(s, "i/o timeout"):
+		return "timeout"
+	case strings.Contains(s, "connection refused"):
+		return "refused"
+	case strings.Contains(s, "connection reset"):
+		return "reset"
+	case strings.Contains(s, "EOF"):
+		return "eof"
+	}
+	return "other"
 }
 
 type canon struct {
